@@ -172,10 +172,20 @@ def run_case(case):
 
     try:
         with contextlib.redirect_stdout(io.StringIO()), seams.pulser_np_random(), seams.module_random(impl_mod, seams.ScriptedRandom(default_uniform=0.3, default_choice=0)):
-            res = (sv.SVBackend if backend == "sv" else m.MPSBackend)(seq, config=cfg).run()
+            be_obj = (sv.SVBackend if backend == "sv" else m.MPSBackend)(seq, config=cfg)
+            res = be_obj.run()
     except Exception as e:
         outcome = ["raise", type(e).__name__]
         res = None
+        # error path: the caller catches the refusal and calls run() again on the SAME backend object - it has to be refused again
+        try:
+            with contextlib.redirect_stdout(io.StringIO()), seams.pulser_np_random(), seams.module_random(impl_mod, seams.ScriptedRandom(default_uniform=0.3, default_choice=0)):
+                res = be_obj.run()
+            outcome = ["raise-then-results", type(e).__name__]
+        except NameError:
+            pass  # the constructor itself refused
+        except Exception:
+            pass
     lind = nz in ("relaxation", "dephasing", "hyperfine_dephasing", "depolarizing", "eff_noise", "leakage", "relaxation+dephasing", "SPAM+relaxation")
     must_refuse = (
         basis in ("raman", "mixed", "mixed_detuning_only")
